@@ -96,7 +96,17 @@ class UseWalrusIf(SimpleCodemod, NameResolutionMixin):
                 return original_node.test.left
 
     def _single_access(self, original_node: cst.IfExp) -> bool:
-        return len(self.find_accesses(self._tested_name(original_node))) == 1
+        name = self._tested_name(original_node)
+        scope = self.get_metadata(ScopeProvider, name, None)
+        if scope is None:
+            return False
+        # every read of the variable, those from nested scopes (closures, comprehensions, lambdas) included
+        references = {
+            reference.node
+            for assignment in scope.assignments[name.value]
+            for reference in assignment.references
+        }
+        return len(references) == 1
 
     def _is_local_variable(self, name: cst.Name) -> bool:
         """
